@@ -79,6 +79,9 @@ def run(R):
             ps = cfg_nodes_with_call(f, lambda kk: callee_last(kk) == 'pause_reading')
             okp = len(ps) == 1 and g.must_pass(n, {g.exit}, {ps[0][0]}, skip_labels=('exc',))[0]
             c.check(okp, f, ps[0][1] if ps else k, 'after resolving, the transport is paused (later output waits for the next call)', tag='pause-' + name)
+        cm = repo.func(MOD + ':PatternWaiter.connection_made')
+        asg = [n for n in iter_nodes(cm.node) if isinstance(n, ast.Assign) and stmt_assigns_attr(n, 'transport') is not None and is_name(n.value, cm.params[1])]
+        c.check(len(asg) == 1, cm, asg[0] if asg else cm.node, 'connection_made stores the transport that found()/error() later pause', kind='ast', tag='transport-stored')
     with R.clause('D6', 'TIMEOUT', floor=4, desc='awaits wait_for(fut, timeout); TimeoutError -> pause + Expecter.timeout()') as c:
         check_wait(c, ea)
     with R.clause('D7', 'REUSE', floor=5, desc='reuse of the stored protocol/transport pair') as c:
@@ -198,7 +201,8 @@ def check_eof(c, repo):
     ts = [x for x in g2.nodes if x.kind == 'test']
     c.need(len(ts) == 2, 'connection_lost: expected two tests')
     t1, t2 = sorted(ts, key=lambda x: x.id)
-    ok = 'errno.EIO' in norm(t1.ast) and 'isinstance(%s, OSError)' % p in norm(t1.ast)
+    ok = isinstance(t1.ast, ast.BoolOp) and isinstance(t1.ast.op, ast.And) and sorted(norm(v) for v in t1.ast.values) == sorted(
+        ['isinstance(%s, OSError)' % p, '%s.errno == errno.EIO' % p])
     k1 = [n for n in guard_region(g2, t1, 'true') if any(callee_last(k) == 'eof_received' for k in node_calls(n))]
     c.check(ok and len(k1) == 1, f2, t1.ast, 'a pty closing with EIO is treated as EOF', witness=norm(t1.ast), kind='ast', tag='eio-eof')
     k2 = [n for n in guard_region(g2, t2, 'true') if any(callee_last(k) == 'error' and k.args and is_name(k.args[0], p) for k in node_calls(n))]
@@ -277,6 +281,8 @@ MUTANTS = [
     ('existing-after-connect', MOD, "    idx = expecter.existing_data()\n    if idx is not None:\n        return idx\n    if not expecter.spawn.async_pw_transport:", "    if not expecter.spawn.async_pw_transport:", 'D1'),
     ('eof-no-flag', MOD, "            self.expecter.spawn.flag_eof = True\n            index = self.expecter.eof()", "            index = self.expecter.eof()", 'D4'),
     ('eio-as-error', MOD, "        if isinstance(exc, OSError) and exc.errno == errno.EIO:", "        if isinstance(exc, OSError) and exc.errno == errno.EBADF:", 'D4'),
+    ('transport-not-stored', MOD, "    def connection_made(self, transport):\n        self.transport = transport", "    def connection_made(self, transport):\n        pass", 'D5'),
+    ('eio-or', MOD, "        if isinstance(exc, OSError) and exc.errno == errno.EIO:", "        if isinstance(exc, OSError) or exc.errno == errno.EIO:", 'D4'),
     ('protocol-sets-before', MOD, "        if self.fut.done():\n            spawn._before.write(s)", "        if self.fut.done():\n            spawn.before = s\n            spawn._before.write(s)", 'D2'),
 ]
 PRESERVING = []
